@@ -126,4 +126,23 @@ def run(spec0, rep, steps, tol=1e-9, direct=True):
                 d = G.phys_diff(v["kind"], got, exp)
                 if d > 1e-6 * sc:
                     msgs.append("%d-step run: %s(optimize(x)) and optimize(%s(x)) differ at vertex id %r by %.3g" % (steps, rep.name, rep.name, v["id"], d))
+    if direct and not msgs and info["squares"] == steps + 1:
+        # the optimum reached by a full optimize() run is the same physical configuration, and final_chi2 scales accordingly
+        gA, vA, eA = GB.build(spec0)
+        gB, vB, eB = GB.build(rep.spec_map(copy.deepcopy(spec0)))
+        rA = GB.optimize(gA, tol=1e-10, max_iter=50, fix_first_pose=False)
+        rB = GB.optimize(gB, tol=1e-10, max_iter=50, fix_first_pose=False)
+        byidB = {v.id: v for v in vB}
+        sc = 1.0 + _tscale(spec0) + rep.scale
+        for v, sn in zip(spec0["vertices"], GB.snapshot(vA)):
+            exp = rep.pose_map(dict(v, pose=sn[2]))
+            got = I.comps(byidB[rep.id_map(v["id"])].pose)
+            if all(np.isfinite(got)) and all(np.isfinite(exp)):
+                d = G.phys_diff(v["kind"], got, exp)
+                info["ratio"] = max(info["ratio"], d / (1e-7 * sc))
+                if d > 1e-7 * sc:
+                    msgs.append("optimize(tol=1e-10): the optimum of the %s description differs at vertex id %r by %.3g (%d vs %d iterations)" % (rep.name, v["id"], d, rB.num_iterations, rA.num_iterations))
+                    break
+        if not msgs and not abs(rB.final_chi2 - rep.chi_factor * rA.final_chi2) <= 1e-6 * (abs(rep.chi_factor * rA.final_chi2) + 1e-12 * rep.chi_factor):
+            msgs.append("optimize(tol=1e-10): final_chi2 of the %s description is %.17g, expected %g x %.17g" % (rep.name, rB.final_chi2, rep.chi_factor, rA.final_chi2))
     return msgs, info
